@@ -3,17 +3,25 @@ from common import LEAN_TB
 CFG = {'lean_modules': ['ObiVerif.Props.C10'],
  'gen': True,
  'thorough_seeds': 8,
- 'rule': 'cases = (operation, pattern, budget 0..4, indel flag, complemented?, sequence, circular?, begin, length): hand-picked corpus (every defect found, '
-         'hits touching both ends, windows, empty/short sequences, pattern lengths 1, 63, 64 and 65); random patterns of 1..63 positions with IUPAC codes, '
-         '[...] classes, ! and # (and arbitrary strings over the pattern alphabet for the compiler / complementer); random sequences with 0..3 planted sites '
-         'carrying 0..e+1 substitutions (or indels), the first site at offset 0 and the last one at the end in a fixed fraction of the cases, also with '
-         'ambiguous symbols or non-letter bytes; windows (begin,length) incl. negative / beyond the end; circular sequences of >= 64 symbols; operations pat, '
-         'rcpat, find (FindAllIndex), is (IsMatching), filter (FilterBestMatch), all (AllMatches), best (BestMatch), locate (LocatePattern); thorough tier '
-         'adds the enumeration of 42 patterns of <= 2 tokens x all 121 sequences over {a,c,t} of length <= 4 x budgets 0..2 x {mismatch, indel}. Every search '
-         'runs on a fresh ApatSequence and on one recycled from the previous case (results must agree). non-trivial = distinct case whose pattern compiles',
+ 'rule': 'cases = (operation, pattern, budget, indel flag, complemented?, sequence, circular?, begin, length): hand-picked corpus (every defect found — incl. '
+         'the circular over-read and the FilterBestMatch sentinel witnesses with a first hit beyond position 10000 —, hits touching both ends, hits at the '
+         'first position of a window with begin > 0 and straddling it, window ends inside the sequence, empty/short sequences, pattern lengths 1, 31, 32, 33, '
+         "63, 64 and 65, budgets up to 63, '#' with indels); random patterns of 1..63 positions (a fixed fraction with exactly 1, 2, 31, 32, 33, 62, 63 "
+         'positions) with IUPAC codes, [...] classes, ! and # (and arbitrary strings over the pattern alphabet for the compiler / complementer); budgets 0..4 '
+         'and, in a fixed fraction, 0..patlen+1; random sequences with 0..3 planted sites carrying 0..e+1 substitutions (or indels), the first site at offset '
+         '0 and the last one at the end in a fixed fraction of the cases, also with ambiguous symbols, upper-case letters or non-letter bytes; windows '
+         '(begin,length) random incl. negative / beyond the end, aimed at the start of a planted site (-1/0/+1) and with the window END aimed at the end of a '
+         'site (-1/0/+1); circular sequences of >= 64 symbols and (new) shorter ones, whose buffer is followed by hostile stale bytes (instances of the '
+         'pattern) written through the public BioSequence API; operations pat, rcpat, find (FindAllIndex), is (IsMatching), filter (FilterBestMatch), all '
+         '(AllMatches), best (BestMatch), locate (LocatePattern); thorough tier adds the enumeration of 42 patterns of <= 2 tokens x all 121 sequences over '
+         '{a,c,t} of length <= 4 x budgets 0..2 x {mismatch, indel} (+ circular and begin=1 variants). Every search runs on a fresh ApatSequence and on one '
+         'recycled from the previous case (results must agree). Generator statistics (S lines): kernel, patlen class, budget class, window class, hit '
+         'positions (offset 0, window start, sequence end, window end, circular origin, beyond 10000), sequence classes. non-trivial = distinct case whose '
+         'pattern compiles',
  'technique': 'Lean 4 theorems on a transcription of the C bit-parallel matcher (64-bit state words as BitVec 64) and of its Go layer + differential '
               'correspondence with the real cgo calls + independent oracle (brute-force Hamming distance at every position, brute-force / Sellers edit '
-              'distance over substrings, mirrored token list for the complement, reverse-complement symmetry as a relation between two real runs)',
+              "distance over substrings, a constrained edit-distance DP for '#' with indels, mirrored token list for the complement, reverse-complement "
+              'symmetry as a relation between two real runs)',
  'level_text': 'Proved for every pattern of 1..63 positions (IUPAC classes, negations, obligatory positions), every budget, every sequence and every window: '
                'the mismatch-only automaton (ManberSub, ManberNoErr, ManberAll without indels, FindAllIndex on a linear sequence) reports exactly the '
                'positions whose Hamming distance to the pattern, with no mismatch at a # position, is within the budget, each once, in increasing order, with '
@@ -27,26 +35,49 @@ CFG = {'lean_modules': ['ObiVerif.Props.C10'],
                'distance of the pattern to a substring ending there when within the budget; hypothesis: no obligatory # position - with # the C code is not '
                'uniform, example in Props), compile_grammar, complement_mirror and match_revcomp_string (the string-level complementPattern yields the '
                'mirrored code list for every pattern of the documented grammar, so strand symmetry holds without the MirrorList hypothesis; '
-               'complement_outside_grammar: counterexample for ## which CheckPattern accepts). Still by correspondence/oracle only: # combined with indels, '
-               'circular re-alignment, the composition AllMatches/BestMatch = indel_iff o locate_spec.',
+               'complement_outside_grammar: counterexample for ## which CheckPattern accepts). Second deepening round, proved: indel_oblig_iff (ManberIndel '
+               "for EVERY pattern of 1..63 positions, '#' included: a hit (pos-m+1,k) iff k <= e is the least cost of an alignment ReachO of the pattern with "
+               'a suffix of the window read up to pos; ReachO = edit alignments in which an obligatory position is never substituted, never deleted and not '
+               'followed by an inserted symbol, plus the start rule of the C init loop: in front of the window any pattern prefix counts as deleted), '
+               'indel_oblig_strict (an end position >= m+k-1 symbols after the window start is reported through a strict alignment only), oblig_never_error '
+               '(in a strict alignment an obligatory position is matched by a symbol of its class at no cost), strict_is_alignment; compile_grammar_iff '
+               '(MakeApatPattern accepts exactly the documented grammar, for strings without the adjacencies ##, !#, !!), position_semantics (a compiled '
+               'position accepts exactly the IUPAC class of its letters, negated for !, obligatory iff #); raw_hits_within_budget, raw_hits_sorted, '
+               'bestOf_leftmost_min (BestMatch selects the leftmost raw hit of minimal error level), filterBestMatch_cover / filterBestMatch_chain '
+               '(FilterBestMatch as repaired keeps for every raw hit a hit with at most as many errors; kept hits never overlap), allMatches_spec / '
+               'bestMatch_spec (composition automaton o LocatePattern on a linear sequence: every returned triple is within the budget and is a raw hit passed '
+               'unchanged or, in indel mode, a span inside the sequence whose reported error count IS the edit distance between the pattern string and that '
+               'span). Still by correspondence/oracle only: completeness of AllMatches in indel mode (oracle all.iff), AllMatches/BestMatch on circular '
+               'sequences (known finding D35).',
  'level_note': 'Trusted: Lean kernel; the transcription Model/Apat.lean (validated differentially: compiled code words, omask, S matrix and every hit list are '
-               'compared byte for byte); the C compiler; extractor (literals only). The model follows the code as repaired by the five C10 patches (BestMatch '
-               'end, LocatePattern start, LocatePattern short sequence, complement of !X# first, complement of negated classes). Pattern length 64 (and more) '
-               'is accepted by MakeApatPattern although `0x1L << patlen` is undefined behaviour in C: reported by the oracle (find.sub.patlen64), not modelled '
-               '(results of such cases are printed as `unmodelled`). Memory safety of the C stacks and of the circular extension (EncodeSequence reads '
-               'in[0..64) even when the sequence is shorter) is not covered: circular sequences shorter than 64 are not exercised.',
- 'trusted_base': LEAN_TB + ['extract/ (literal extraction of sDnaCode, LX_BIO_DNA_ALPHA, LX_BIO_CDNA_ALPHA, PATMASK, OBLIBIT, MAX_PAT_LEN, ALPHA_LEN, _iupac, _revcmpDNA)',
- "C compiler translation of apat_parse.c / apat_search.c / obiapat.c / libstki.c (two's-complement conversion of hit positions to int32)",
- 'brute-force Hamming / edit-distance references and the token parser of the documented pattern grammar in the harness',
- 'pkg/obiapat/verif_hooks.go (read-only accessors to the compiled pattern)'],
+               'compared byte for byte); the C compiler; extractor (literals only). The model follows the code as repaired by the seven C10 patches (BestMatch '
+               'end, LocatePattern start, LocatePattern short sequence, complement of !X# first, complement of negated classes; this round: circular sequence '
+               'shorter than MAX_PAT_LEN read past its end - C10-circular-short-overread -, FilterBestMatch/AllMatches lost every match when the first one '
+               'starts beyond position 10000 - C10-filterbest-first-hit-beyond-10000). Pattern length 64 (and more) is accepted by MakeApatPattern although '
+               '`0x1L << patlen` is undefined behaviour in C: reported by the oracle (find.sub.patlen64), not modelled (results of such cases are printed as '
+               '`unmodelled`). An error budget > 63 overruns the r[] array of ManberSub/Indel (not validated by MakeApatPattern): not exercised (the harness '
+               "rejects e > 63). '#' with indels: the semantics proved (indel_oblig_iff) is the one of the code as it is - asymmetric (insertion allowed "
+               'before, not after, an obligatory position) and with the start exception (A#C, one error, is found in `c` at the window start but not in `tc`); '
+               "the property statement says nothing about '#' with indels, so this is recorded as an observation, not as a finding. LocatePattern compares the "
+               'raw pattern string (brackets, !, # included) by _samenuc: allMatches_spec / bestMatch_spec speak about that string (Pattern.locPat), which is '
+               'the pattern for pure IUPAC patterns only (documented restriction of AllMatches).',
+ 'trusted_base': LEAN_TB + [
+                  'extract/ (literal extraction of sDnaCode, LX_BIO_DNA_ALPHA, LX_BIO_CDNA_ALPHA, PATMASK, OBLIBIT, MAX_PAT_LEN, ALPHA_LEN, _iupac, '
+                  '_revcmpDNA)',
+                  "C compiler translation of apat_parse.c / apat_search.c / obiapat.c / libstki.c (two's-complement conversion of hit positions to int32)",
+                  'brute-force Hamming / edit-distance references and the token parser of the documented pattern grammar in the harness',
+                  'pkg/obiapat/verif_hooks.go (read-only accessors to the compiled pattern)'],
  'modelled': 'pkg/obiapat apat_parse.c (CheckPattern, splitPattern, valPattern, EncodePattern), apat_search.c (CreateS, ManberNoErr, ManberSub, ManberIndel, '
-             'ManberAll), obiapat.c (UpperSequence, EncodeSequence, circular extension, buildPattern, complementPattern/reverseSequence), pattern.go '
-             '(MakeApatPattern, ReverseComplement, FindAllIndex, IsMatching, FilterBestMatch, AllMatches, BestMatch), obialign/locatepattern.go '
-             '(LocatePattern, _samenuc)',
+             'ManberAll), obiapat.c (UpperSequence, EncodeSequence, circular extension min(seqlen, MAX_PAT_LEN), buildPattern, '
+             'complementPattern/reverseSequence), pattern.go (MakeApatPattern, ReverseComplement, FindAllIndex, IsMatching, FilterBestMatch, AllMatches, '
+             'BestMatch), obialign/locatepattern.go (LocatePattern, _samenuc)',
  'assumptions': ['pattern length 1..63 (64 is undefined behaviour in C, reported separately)',
-                 'error budget <= 63 (the r[] array of ManberSub/Indel has 2*MAX_PAT_ERR+2 words)',
+                 'error budget <= 63 (the r[] array of ManberSub/Indel has 2*MAX_PAT_ERR+2 words; a larger budget is a stack overrun, not exercised)',
                  'the search window is the one the API applies: [max(begin,0), min(begin+length+MAX_PAT_LEN, len)) (length < 0 = whole sequence)',
                  "sequence symbols are compared as the matcher specifies: a sequence letter matches a position iff it belongs to the position's class (classes "
                  'contain only a,c,g,t unless negated); strand symmetry assumes letters only and no symbol u (obiseq complements u to a)',
-                 'obligatory positions combined with indels, and circular sequences in AllMatches/BestMatch, are tied by correspondence only',
+                 'compile_grammar_iff: the upper-cased pattern string has no ##, !# or !! (decidable hypothesis `plain`; CheckPattern accepts such strings, '
+                 'outside the documented grammar)',
+                 'bestMatch_spec, filterBestMatch_cover/chain, bestOf_leftmost_min: budget < 10000 (the sentinel of the Go loops)',
+                 'circular sequences in AllMatches/BestMatch are tied by correspondence only (known finding D35)',
                  'patterns contain no NUL byte; begin/length fit in int32']}
